@@ -6,8 +6,8 @@ import itertools
 import rf_model as m
 from common import Ctx, Failure, corpus_cases
 
-COQ_TARGETS = ["props/P_C07.vo", "corr/Corr_RF.vo"]
-PROOF_FILES = ["proofs/ResourceFn_proofs.v"]
+COQ_TARGETS = ["props/P_C07.vo", "corr/Corr_RF.vo", "corr/Corr_RFF.vo"]
+PROOF_FILES = ["proofs/ResourceFn_proofs.v", "proofs/RfFaults_proofs.v"]
 RULE = ("exhaustive cells readonly x owned x namespaced x create.enabled x update policy x deleteIfExists x "
         "precondition result x cluster situation (absent / present+matching / present+drifted / present without owner "
         "ref / drifted and without owner ref / terminating), each with random target documents (inline or template, overlays, create overlay), plus random "
@@ -210,6 +210,27 @@ def fault_scenarios(ctx: Ctx):
                 sc["clean"] = False
                 m.prepare_live(sc, ctx.rng)
                 yield sc, {1: ("http", code)}
+    # the read itself is answered 404 although the object is there / fails / raises; an exception at the write
+    for live in ("absent", "drift", "match"):
+        for fault in (("http", 404), ("http", 409), ("http", 500), ("exc_before", RuntimeError("boom"))):
+            for _ in range(1 if ctx.quick() else 5):
+                sc = m.rand_scenario(ctx.rng)
+                m.clean_scenario(sc, ctx.rng)
+                sc["cfg"].update({"plural": "widgets"})
+                sc["lookup"] = None
+                sc["pre"] = None
+                sc["clean"] = False
+                if live == "absent":
+                    sc["live"] = None
+                else:
+                    sc["live"] = "derive"
+                    sc["live_mode"] = live
+                    m.prepare_live(sc, ctx.rng)
+                yield sc, {0: fault}
+                if fault[0] == "exc_before":
+                    sc3 = dict(sc)
+                    sc3["cfg"] = dict(sc["cfg"], kind=None)
+                    yield sc3, {1: fault}
 
 
 def run_one(ctx: Ctx, sc):
@@ -238,11 +259,14 @@ def run(ctx: Ctx):
         ctx.count("outcome:" + o["outcome"]["cls"])
         cases.append(sc)
         terms.append(m.c_case(sc, o))
+    fcases, fterms = [], []
     for sc, faults in fault_scenarios(ctx):
         obs, _ = m.run(sc, faults=faults)
         o = obs[0]
         if "prepare_failed" in o:
             continue
+        fcases.append({"scenario": sc, "faults": {str(k): list(map(str, v)) for k, v in faults.items()}})
+        fterms.append(m.c_fault_case(sc, o, faults))
         ctx.count("faulted:" + ",".join(x["m"] for x in o["calls"]))
         ctx.note_case({"cfg": sc["cfg"], "faults": {str(k): v[0] for k, v in faults.items()}}, nontrivial=True)
         for sig, what in oracle(sc, o):
@@ -250,6 +274,8 @@ def run(ctx: Ctx):
                              observed={"outcome": o["outcome"], "calls": [{k: v for k, v in c.items() if k != "raw_body"} for c in o["calls"]]}))
     if ctx.model_ok:
         ctx.correspond("reconcile_resource_function vs ResourceFn.reconcile_rf", "Corr_RF", cases, terms)
+        ctx.correspond("reconcile_resource_function under API faults vs RfFaults.reconcile_rf_f", "Corr_RFF", fcases, fterms,
+                       check_fn="check_fault_case")
 
 
 def replay(ctx: Ctx, data):
@@ -260,6 +286,9 @@ def replay(ctx: Ctx, data):
         for sig, what in oracle(sc["scenario"], obs[0]):
             ctx.fail(Failure(signature=sig + " (after an API fault)", what=what, case=sc))
         ctx.note_case(sc, True)
+        if ctx.model_ok and "prepare_failed" not in obs[0]:
+            ctx.correspond("replay (faulted)", "Corr_RFF", [sc], [m.c_fault_case(sc["scenario"], obs[0], faults)],
+                           check_fn="check_fault_case")
         return
     o = run_one(ctx, sc)
     ctx.note_case(sc, True)
